@@ -213,6 +213,10 @@ impl BinaryMatrix for SparseBinaryMatrix {
         // extra bit index math
         assert_eq!(start_col, self.width - self.num_dense_columns);
         out.clear();
+        if self.num_dense_columns == 0 {
+            // No dense columns (hint of zero, or dropped by resize): there is nothing to scan
+            return;
+        }
         out.reserve(self.num_dense_columns);
         let physical_row = self.logical_row_to_physical[row] as usize;
         let (mut word, bit) =
